@@ -31,6 +31,47 @@ def _dump(cwd, develop, defines, sandbox, root_query, want):
         if develop:
             persister.prime(packages)
         out = {}
+        bid_memo = {}
+        async def expected_bid_async(step):
+            """Build-Id the builder must have used, recomputed from the source
+            result hashes recorded in the checkout trails (None if it cannot be
+            derived: fingerprinted / non-relocatable / missing trail)."""
+            import gzip, json
+            from bob.cmds.build.build import ExecutableStep, LazyIR
+            from bob.utils import getPlatformTag
+            key = step.getWorkspacePath()
+            if key in bid_memo:
+                return bid_memo[key]
+            res = None
+            try:
+                if step.isCheckoutStep():
+                    ap = os.path.join(os.path.dirname(key), "audit.json.gz")
+                    with gzip.open(ap, "rb") as f:
+                        res = bytes.fromhex(json.load(f)["artifact"]["result-hash"])
+                elif step._isFingerprinted() or (step.isPackageStep() and not step.isRelocatable()):
+                    res = None
+                else:
+                    ir = step if not hasattr(step, "_coreStep") else ExecutableStep.fromStep(step, LazyIR)
+                    async def calc(deps):
+                        r = []
+                        for d in deps:
+                            b = await expected_bid_async(d)
+                            if b is None:
+                                raise KeyError("underivable")
+                            r.append(b)
+                        return r
+                    res = await ir.getDigestCoro(calc, fingerprint=b"", platform=getPlatformTag(), relaxTools=True)
+            except (KeyError, OSError, ValueError):
+                res = None
+            bid_memo[key] = res
+            return res
+        def expected_bid(step):
+            import asyncio
+            loop = asyncio.new_event_loop()
+            try:
+                return loop.run_until_complete(expected_bid_async(step))
+            finally:
+                loop.close()
         for package in packages.queryPackagePath(root_query):
             ent = {"path": "/".join(package.getStack()), "recipe": package.getRecipe().getName(),
                    "name": package.getName(), "steps": {}}
@@ -48,6 +89,16 @@ def _dump(cwd, develop, defines, sandbox, root_query, want):
                         s["tools"] = {n: t.getStep().getWorkspacePath() for n, t in step.getTools().items()}
                         s["fingerprinted"] = step._isFingerprinted()
                         s["env"] = dict(step.getEnv())
+                    if "bid" in want:
+                        from bob.state import BobState
+                        b = expected_bid(step)
+                        s["bid"] = b.hex() if b is not None else None
+                        s["storage"] = BobState().getStoragePath(step.getWorkspacePath())
+                        s["label"] = step.getLabel()
+                        if step.isPackageStep():
+                            ih = BobState().getInputHashes(step.getWorkspacePath())
+                            s["prov"] = ("built" if isinstance(ih, list) else "downloaded" if isinstance(ih, bytes)
+                                         else "shared" if isinstance(ih, tuple) else None)
                 ent["steps"][label] = s
             if "detail" in want:
                 ent["metaEnv"] = dict(package.getMetaEnv())
